@@ -6,6 +6,9 @@ processIncomingPacket resets the framer") first reads a garbage chunk, then K = 
 "no more than two frames" of valid traffic lost), each delivery is the frame's own message, and after every valid
 frame the backlog is at most garbage + one frame.
 twoperread.*: the same with two valid frames per read.
+handler.<framing>.<kind>: the same question put to the REAL serial-style handler loop (its own exception rule), with
+garbage kinds that make the decoder raise: lone delimiters ('{}'), a checksum-valid frame without a PDU, one with a bare
+function code.
 Liveness is thereby reduced to bounded safety; garbage kinds: arbitrary bytes (function-code byte enumerated),
 a frame with a bad checksum, a valid frame for a foreign unit, a truncated frame, lone delimiter characters.
 """
@@ -96,7 +99,9 @@ def make_resync(framing, kind, G, fcbyte=None, per_read=1, vkind="fc6"):
             if pos is not None and fcbyte is not None:
                 assume(g[pos] == fcbyte)
             if framing == "rtu" and fcbyte in (16, 15):
-                assume(g[6] <= 2 * FL - 9)        # announced size (byte count + 9) within garbage + 2 frames
+                # announced size (byte count + 9) within garbage + 2 frames; with less than 7 garbage bytes the
+                # byte-count position falls into the first valid frame
+                assume((g + frame)[6] <= 2 * FL - 9)
         elif kind == "badcheck":
             garbage = bytearray(valid_frame(framing, unit, g[:4]))
             garbage = bytes(garbage)
@@ -163,6 +168,60 @@ def make_resync(framing, kind, G, fcbyte=None, per_read=1, vkind="fc6"):
     return resync
 
 
+def make_handler(framing, kind, G):
+    """the REAL serial-style server handler (server/sync.py ModbusSingleRequestHandler.handle, with its own exception
+    rule) instead of the framer plus a re-implementation of that rule: garbage chunk, then K valid FC6 requests, one per
+    read; the 3rd and 4th must be answered"""
+    def handler(g: bytes, u: int, b: bytes) -> bool:
+        from harness import serverlib as SL
+        assume(len(g) == G and len(b) == 4)
+        assume(1 <= u <= 247)
+        assume(b[0] == 0)
+        assume(b[1] <= 3)                  # write inside the 4-register table
+        frame = valid_frame(framing, u, b)
+        FL = len(frame)
+        if framing == "binary":
+            c = crc16(bytes([u, 6]) + b)
+            hit = (u == 0x7B) | (u == 0x7D) | (lohi(c)[0] == 0x7B) | (lohi(c)[0] == 0x7D) | (lohi(c)[1] == 0x7B) | (lohi(c)[1] == 0x7D)
+            for i in range(4):
+                hit = hit | (b[i] == 0x7B) | (b[i] == 0x7D)
+            assume(lnot(hit))
+        if kind == "delims":
+            for i in range(G):
+                assume((g[i] == 0x3A) | (g[i] == 0x0D) | (g[i] == 0x0A) | (g[i] == 0x7B) | (g[i] == 0x7D))
+            garbage = g
+        elif kind == "nopdu":
+            # a frame whose integrity check holds but which carries no PDU at all (address only)
+            garbage = adu.ref_adu(framing, b"", u)
+        elif kind == "fconly":
+            # ... or nothing but a function-code byte of a request that needs data
+            garbage = adu.ref_adu(framing, bytes([g[0]]), u)
+            assume((g[0] == 3) | (g[0] == 6) | (g[0] == 16) | (g[0] == 0x55))
+        else:
+            garbage = g
+        stream = garbage
+        for _ in range(K):
+            stream = stream + frame
+        if kind == "raw":
+            no_straddle(framing, stream, len(garbage), FL)
+        slave = SL.small_context()
+        ctx = SL.server_context(slave, single=True)
+        r = SL.drive("sync-serial", framing, ctx, [garbage] + [frame for _ in range(K)])
+        if r.escaped is not None:
+            explain("%s escaped the handler", type(r.escaped).__name__)
+            return False
+        echo = valid_frame(framing, u, b)
+        n = 0
+        for w in r.written:
+            if w == echo:
+                n += 1
+        if n < 2:
+            explain("%d of %d valid requests answered after the garbage %r (responses: %d)", n, K, garbage, len(r.written))
+            return False
+        return True
+    return handler
+
+
 def _ascii_stuck(garbage):
     """region of KF-ascii-deaf-after-bad-frame: the garbage contains a ':' followed later by CR LF (a complete but
     unacceptable frame stays at the head of the buffer for ever)"""
@@ -210,6 +269,12 @@ def obligations(tier):
             plan.append((framing, "foreign", 4, None, 1, vk))
             if tier != "quick":
                 plan.append((framing, "badcheck", 6, None, 1, vk))
+    for framing, kind, G in (("binary", "delims", 2), ("binary", "nopdu", 0), ("ascii", "nopdu", 0), ("ascii", "fconly", 1), ("binary", "fconly", 1),
+                             ("ascii", "delims", 3), ("rtu", "raw", 3), ("ascii", "raw", 5)):
+        if tier == "quick" and (framing, kind) in (("ascii", "delims"), ("ascii", "raw"), ("rtu", "raw")):
+            continue
+        out.append(Obl("handler.%s.%s.g%d" % (framing, kind, G), make_handler(framing, kind, G), timeout=T, contracts=contracts[framing], lemmas=lem[framing],
+                       bounds="the real synchronous serial-style handler, %s framing: garbage kind '%s' (%d symbolic bytes) in one read, then %d valid FC6 requests one per read (unit, address 0..3, value symbolic): at least the last two are answered" % (framing, kind, G, K)))
     for framing, kind, G, fc, per, vk in plan:
         name = "%s.%s.%s.g%d%s%s" % ("resync" if per == 1 else "twoperread", framing, kind, G, "" if fc is None else ".fc%d" % fc, "" if vk == "fc6" else ".valid-" + vk)
         fnd = ("KF-ascii-deaf-after-bad-frame",) if framing == "ascii" and kind in ("badcheck", "raw") else ()
